@@ -217,6 +217,7 @@ def differential(
                 )
             continue
         lazy = oracle.make_lazy(prog.make_fn, xs, prog.params, dp, rng, registry.eval_jax)
+        lazy.discrete_ref64 = prog.source == "generated"
         c = oracle.compare(ref, got, lazy=lazy, eps_floor=eps_floor, K=K)
         bump("elements_compared", c.n_compared)
         bump("masked_nonfinite_reference_elements", c.masked_nonfinite)
